@@ -193,7 +193,7 @@ def build_table() -> None:
     E("disallow_untyped_defs", "untyped_defs", F, T)
     E("enable_error_code", "ignore_no_code", None, "ignore-without-code")
     E("extra_checks", "extra_checks", F, T)
-    E("strict_concatenate", "sink", F, T, same=True, tier="thorough")
+    E("strict_concatenate", "sink", F, T, tier="thorough")   # witness: the deprecation warning printed by main.py
     E("follow_imports", "follow", "normal", "skip", mod="b")
     E("follow_imports", "follow", "silent", "error", mod="b", tier="thorough")
     E("follow_imports_for_stubs", "follow_stub", F, T, extra=["follow_imports = skip"], mod="b")
@@ -277,9 +277,9 @@ def build_table() -> None:
         ("inspections", F, T), ("preserve_asts", F, T), ("include_docstrings", F, T), ("export_types", F, T),
         ("test_env", F, T), ("fast_exit", T, F), ("fast_module_lookup", F, T), ("disable_expression_cache", F, T),
         ("export_ref_info", F, T), ("logical_deps", F, T), ("show_traceback", F, T), ("raise_exceptions", F, T),
-        ("verbosity", "0", "1"), ("non_interactive", F, T), ("junit_format", "global", "per_file"),
+        ("junit_format", "global", "per_file"),
         ("junit_xml", None, "junit.xml"), ("disable_bytearray_promotion", T, F), ("disable_memoryview_promotion", T, F),
-        ("mypyc_skip_c_generation", F, T), ("dump_build_stats", F, T),
+        ("mypyc_skip_c_generation", F, T),
     ]:
         E(attr, "sink", a, b, same=True, only=["config"], tier="quick" if attr in (
             "skip_cache_mtime_checks", "cache_fine_grained", "debug_serialize", "fine_grained_incremental",
@@ -300,6 +300,9 @@ NOT_TOGGLED = {
     "modules": "target set (C02)",
     "per_module_options": "raw per-module sections; their resolved values are classified per attribute (section spelling)",
     "pdb": "debugger on crash; no output unless mypy crashes",
+    "verbosity": "log lines on stderr only (the harness itself runs every warm run with -v and filters LOG lines)",
+    "non_interactive": "only accepted together with --install-types (usage error otherwise); install_types is in the key",
+    "dump_build_stats": "developer statistics dump (timings) on stdout/stderr",
     "dump_type_stats": "developer statistics dump",
     "dump_inference_stats": "developer statistics dump",
     "timing_stats": "developer statistics file",
@@ -380,7 +383,8 @@ def run_mypy(cwd: str, cache: str, cfg: str, flags: list[str], targets: list[str
         st, out, err = 124, "", "[timeout]"
     res = {"status": st, "stdout": out, "stderr": clean_stderr(err), "cmd": " ".join(cmd[1:]), "cfg": cfg}
     if verbose:
-        res["log"] = [l for l in err.splitlines() if "Metadata" in l or "options differ" in l or "Found fresh SCC" in l or "Scheduling SCC" in l]
+        # freshness verdicts of the user modules only (typeshed paths excluded: a global toggle abandons ~70 of them)
+        res["log"] = [l for l in err.splitlines() if "Metadata" in l and "/typeshed/" not in l][:200]
     return res
 
 
@@ -544,7 +548,7 @@ def combine(v: dict[str, Any], ca: dict[str, Any], cb: dict[str, Any]) -> dict[s
     res["coldA"], res["coldB"] = cold["A"], cold["B"]
     for first, second, ch in (("A", "B", ca), ("B", "A", cb)):
         stale = obs(ch["warm"]) != obs(cold[second])
-        res["dirs"][first + second] = {"stale": stale, "log": ch["warm"].get("log", [])[:60], "warm": ch["warm"] if stale else None}
+        res["dirs"][first + second] = {"stale": stale, "log": ch["warm"].get("log", [])[:200], "warm": ch["warm"] if stale else None}
     return res
 
 
@@ -648,7 +652,7 @@ def predict(ctx: vlib.Ctx, results: list[dict[str, Any]], classes: dict[str, Any
     cases = []
     exprs = []
     for r in results:
-        if r["attr"] in NO_PREDICT or r.get("special") or r["spelling"] == "inline":
+        if r["attr"] in NO_PREDICT or r.get("special") or r.get("tag") or r["spelling"] == "inline":
             continue
         for d, (x, y) in (("AB", (r["a"], r["b"])), ("BA", (r["b"], r["a"]))):
             g1 = [(r["attr"], x)] if x is not None else []
